@@ -380,7 +380,7 @@ def gen_cases(rng, tier):
             mods.append(dict(index=index, sub=sub, field=f, value=val))
         if rng.random() < 0.3: mods.append(dict(od="node_id", value=rng.choice([None, 1, 9, 127])))
         if rng.random() < 0.3: mods.append(dict(od="bitrate", value=rng.choice([None, 125, 500])))
-        if rng.random() < 0.3: mods.append(dict(od="comments", value=[rng.choice(["new comment", "x = y"])]))
+        if rng.random() < 0.3: mods.append(dict(od="comments", value=rng.choice([["new comment"], ["x = y"], ["a", "", "b"], ["", "after an empty line"]])))
         d2 = apply_mods_desc(desc, mods)
         doc_type = rng.choice(["eds", "dcf"])
         nid = d2.get("file_node_id") if doc_type == "eds" else rng.choice([None, d2.get("file_node_id")])
